@@ -1,7 +1,7 @@
 """C06 - reported uncertainties and p-values are coherent with the evaluations (DESIGN 4/C06)
 
-Four exhaustively enumerated families, every case additionally under EVERY permutation of the
-model order:
+Five exhaustively enumerated families (V, T, F, M: every case additionally under EVERY permutation of
+the model order):
 
   V  variance extraction: Result(variances=<scalar|vector|matrix|3-stack>, with/without the two
      noise-ceiling rows, n_rdm/n_pattern in {None,3,5}) -> model_var, diff_var, noise_ceil_var
@@ -15,6 +15,12 @@ model order:
      names `compare` / `boot_noise_ceiling` imported into inference.evaluate replaced so that
      every vector of per-subject evaluations over a value alphabet is driven through it).
   M  monotonicity: a grid of effect sizes at fixed variance, p never increases with the effect.
+  S  sequences: every ordered pair (thorough: triple) of calls from {get_means, get_sem, get_ci,
+     test_pairwise/zero/noise/all x admissible test types, summary} on ONE Result (hand-built with 1
+     and with several samples, and eval_fixed output) and of the util-level functions on ONE shared
+     set of ndarrays: the stored evaluations / variances / noise ceiling stay bit-identical after
+     every call and every later output equals the same call on a fresh object built from the
+     original evaluations (which T / F judge against the references).
 """
 import itertools
 import sys
@@ -30,7 +36,9 @@ LEVEL = 'exploration'
 RULE = ('Families V (variance forms x ceiling rows x n_rdm/n_pattern), T (2-5 dimensional evaluation '
         'arrays x every subset of <=4 NaN samples x ceiling form x dof x test type), F (eval_fixed on RDM '
         'alphabets and on every per-subject evaluation matrix over {-1,0,1,2}/4) and M (11 effect sizes at '
-        'fixed variance); values from small alphabets (all vectors) plus fixed fills from the seed; every '
+        'fixed variance), S (every ordered pair / triple of accessor and test calls on one Result and of the '
+        'util functions on one shared ndarray: inputs bit-identical afterwards, outputs independent of the '
+        'history); values from small alphabets (all vectors) plus fixed fills from the seed; every '
         'base case is repeated for EVERY permutation of the model order. One evaluation = one Result '
         '(base or reordered) whose outputs were all judged. Non-trivial = not an all-NaN array; distinct = '
         'distinct (case descriptor, n_rdm/n_pattern or permutation).')
@@ -45,6 +53,8 @@ ASSUMPTIONS = [
     'NaN samples = whole bootstrap samples (all models) or, for 1 x model x subject arrays, whole subjects',
     'rank-sum tests only for 3-D evaluations (asserted by the library); bootstrap tests need >= 2 samples',
     'covariance inputs are symmetric (possibly indefinite in the alphabets)',
+    'sequence family: a call repeated on a fresh object with bit-identical inputs is deterministic, so later '
+    'outputs are compared bit-for-bit with the first-call outputs',
 ]
 TOL = 1e-9
 TOL_EQ = 1e-10
@@ -52,10 +62,11 @@ TOLERANCES = {'value': TOL, 'equivariance': TOL_EQ, 'range/symmetry/monotonicity
 BOUNDS = {
     'quick': {'n_model': [1, 2, 3, 4], 'ndim': [2, 3, 4, 5], 'max_axis': 4, 'nan_subset_max': 4,
               'n_rdm/n_pattern': [None, 3, 5], 'dof': [1, 2, 7], 'fills': 2, 'effect_grid': 11,
-              'permutations': 'all (1, 2, 6, 24)'},
+              'permutations': 'all (1, 2, 6, 24)', 'call_sequences': 'all ordered pairs'},
     'thorough': {'n_model': [1, 2, 3, 4], 'ndim': [2, 3, 4, 5], 'max_axis': 5, 'nan_subset_max': 4,
                  'n_rdm/n_pattern': [None, 3, 5], 'dof': [1, 2, 7], 'fills': 5, 'effect_grid': 11,
-                 'permutations': 'all (1, 2, 6, 24)'},
+                 'permutations': 'all (1, 2, 6, 24)',
+                 'call_sequences': 'all ordered pairs; all ordered triples for n_model <= 2'},
 }
 
 ALPHA = {'q4': (-0.25, 0.0, 0.25, 0.5), 'q3': (-0.25, 0.0, 0.25), 'q2': (0.0, 0.25),
@@ -763,6 +774,230 @@ def run_M(case, ctx):
                                  '|difference| %r -> p %r, larger %r -> p %r (variance %r, dof %r)' % (d0, p0, d1, p1, var, dof))
 
 
+# ----------------------------------------------------------------------------- family S
+# Sequences of calls on ONE object: a reported value must be a function of the evaluations that
+# were supplied, whatever was asked from the same Result (or computed from the same ndarray) before.
+def _S_types(shape):
+    return ['t-test'] + (['bootstrap'] if shape[0] >= 2 else []) + (['ranksum'] if len(shape) == 3 else [])
+
+
+def S_ops(level, shape):
+    """operation alphabet of one case (names are stable: they go into replay files)"""
+    types = _S_types(shape)
+    if level in ('result', 'eval_fixed'):
+        ops = ['get_means', 'get_sem', 'get_ci:t-test', 'get_ci:bootstrap']
+        for tt in types:
+            ops += ['test_pairwise:' + tt, 'test_zero:' + tt, 'test_noise:' + tt, 'test_all:' + tt]
+            if tt == 't-test' or (tt == 'bootstrap' and len(shape) == 2) or tt == 'ranksum':
+                ops.append('summary:' + tt)          # summary() prints one p per model: 2-D bootstrap only
+        return ops
+    ops = ['extract_variances', 't_tests', 't_test_0', 't_test_nc', 'get_errorbars:sem', 'get_errorbars:ci']
+    for tt in types:
+        ops += ['pair_tests:' + tt, 'zero_tests:' + tt, 'nc_tests:' + tt, 'all_tests:' + tt]
+    if 'bootstrap' in types:
+        ops.append('bootstrap_pair_tests')
+    if 'ranksum' in types:
+        ops += ['ranksum_pair_test', 'ranksum_value_test:0', 'ranksum_value_test:ceiling']
+    return ops
+
+
+def _S_call(level, op, st):
+    name, _, arg = op.partition(':')
+    if level in ('result', 'eval_fixed'):
+        R = st['R']
+        if name == 'get_means':
+            return R.get_means()
+        if name == 'get_sem':
+            return R.get_sem()
+        if name == 'get_ci':
+            return R.get_ci(0.9, arg)
+        if name == 'summary':
+            return R.summary(arg)
+        return getattr(R, name)(arg)
+    from rsatoolbox.util import inference_util as iu
+    ev, nc, var = st['evaluations'], st['noise_ceiling'], st['variances']
+    mv, dv, nv, dof = st['model_var'], st['diff_var'], st['noise_ceil_var'], st['dof']
+    if name == 'extract_variances':
+        return iu.extract_variances(var, st['nc_included'], st['n_rdm'], st['n_pattern'])
+    if name == 't_tests':
+        return iu.t_tests(ev, dv, dof)
+    if name == 't_test_0':
+        return iu.t_test_0(ev, mv, dof)
+    if name == 't_test_nc':
+        return iu.t_test_nc(ev, nv[:, 0], st['ceiling'], dof)
+    if name == 'get_errorbars':
+        return iu.get_errorbars(mv, ev, dof, arg if arg == 'sem' else 'ci90', 't-test')
+    if name == 'pair_tests':
+        return iu.pair_tests(ev, arg, dv, dof)
+    if name == 'zero_tests':
+        return iu.zero_tests(ev, arg, mv, dof)
+    if name == 'nc_tests':
+        return iu.nc_tests(ev, nc, arg, nv, dof)
+    if name == 'all_tests':
+        return iu.all_tests(ev, nc, arg, mv, dv, nv, dof)
+    if name == 'bootstrap_pair_tests':
+        return iu.bootstrap_pair_tests(ev)
+    if name == 'ranksum_pair_test':
+        return iu.ranksum_pair_test(ev)
+    if name == 'ranksum_value_test':
+        return iu.ranksum_value_test(ev, 0 if arg == '0' else st['ceiling'])
+    raise ValueError(op)
+
+
+def _S_state_fp(level, st):
+    from mc.util import fingerprint
+    if level in ('result', 'eval_fixed'):
+        R = st['R']
+        return fingerprint({k: getattr(R, k) for k in (
+            'evaluations', 'variances', 'noise_ceiling', 'model_var', 'diff_var', 'noise_ceil_var', 'dof',
+            'n_rdm', 'n_pattern', 'cv_method', 'method', 'n_model', 'n_bootstraps')})
+    return fingerprint({k: v for k, v in st.items()})
+
+
+def _S_out(level, op, st):
+    """-> (fingerprint of the output, printable output)"""
+    from mc.util import fingerprint
+    try:
+        out = _S_call(level, op, st)
+    except Exception as e:
+        from mc.runner import exc_origin
+        origin, where = exc_origin(sys.exc_info()[2])
+        tag = 'raises:%s%s' % (type(e).__name__, '@oracle' if origin == 'oracle' else '')
+        return tag, '%s: %s [%s %s]' % (type(e).__name__, str(e)[:150], origin, where)
+    if isinstance(out, tuple):
+        out = [np.array(o, dtype=float) if o is not None else None for o in out]
+    elif isinstance(out, list):
+        out = [np.array(o, dtype=float) for o in out]
+    elif out is not None and not isinstance(out, str):
+        out = np.array(out, dtype=float)
+    return fingerprint(out), out
+
+
+def _S_builder(case, seed):
+    """-> (fresh() building a new state from the same original inputs, original evaluations, shape)"""
+    level = case['level']
+    if level == 'eval_fixed':
+        import rsatoolbox.inference.evaluate as evaluate
+        from rsatoolbox.model import ModelFixed
+        from rsatoolbox.rdm import RDMs
+        m, n, n_cond = case['m'], case['n'], 4
+        L = n_cond * (n_cond - 1) // 2
+        g = rng_for(seed, 'seq-fixed', m, n, case.get('fill', 0))
+        mod = np.round(np.abs(g.normal(size=(m, L))) + 0.2, 3)
+        dvec = np.round(np.abs(0.6 * mod[0] + g.normal(size=(n, L))) + 0.1, 3)
+        models = [ModelFixed('model%d' % i, mod[i]) for i in range(m)]
+
+        def fresh():
+            return {'R': evaluate.eval_fixed(models, RDMs(dvec.copy()), method=case.get('method', 'corr'))}
+        ev0 = np.array(fresh()['R'].evaluations, dtype=float)
+        return fresh, ev0, ev0.shape
+    from rsatoolbox.inference.result import Result
+    from rsatoolbox.util.inference_util import extract_variances
+    shape = tuple(case['shape'])
+    m = shape[1]
+    ev, ceil = build_evaluations(dict(case, vals=['B', case.get('fill', 0)]), seed)
+    dof, form, nc_rows, (n_rdm, n_pattern) = VAR_COMBOS[case['vc']]
+    cov = build_cov(form, m, nc_rows, ['B', case.get('fill', 0)], seed)
+    cv = 'fixed' if shape[0] == 1 else cv_for(shape)
+    if case.get('cv'):
+        cv = case['cv']
+    models = _models(m)
+    if level == 'result':
+        def fresh():
+            return {'R': Result(models, ev.copy(), 'cosine', cv, ceil.copy(), variances=cov.copy(), dof=dof,
+                                n_rdm=n_rdm, n_pattern=n_pattern)}
+    else:
+        def fresh():
+            var = cov.copy()
+            mv, dv, nv = extract_variances(var.copy(), nc_rows, n_rdm, n_pattern)
+            return {'evaluations': ev.copy(), 'noise_ceiling': ceil.copy(), 'variances': var,
+                    'model_var': np.array(mv), 'diff_var': np.array(dv), 'noise_ceil_var': np.array(nv),
+                    'dof': dof, 'nc_included': nc_rows, 'n_rdm': n_rdm, 'n_pattern': n_pattern,
+                    'ceiling': float(np.nanmean(ceil[0]))}
+    return fresh, ev, shape
+
+
+S_OPNAME = {'result': 'Result.%s', 'eval_fixed': 'Result.%s', 'util': 'inference_util.%s'}
+
+
+def _S_sig(level, op, shape, kind):
+    name = op.partition(':')[0]
+    return '%s|samples%s|%s' % (S_OPNAME[level] % name, '=1' if shape[0] == 1 else '>1', kind)
+
+
+def _S_diff(a, b):
+    try:
+        if isinstance(a, str) or isinstance(b, str):
+            return 'first call alone:\n%s\nin the sequence:\n%s' % (b, a)
+        fa = np.concatenate([np.ravel(x) for x in (a if isinstance(a, list) else [a]) if x is not None])
+        fb = np.concatenate([np.ravel(x) for x in (b if isinstance(b, list) else [b]) if x is not None])
+        return 'in the sequence %s, on a fresh object %s' % (np.round(fa, 6).tolist()[:12], np.round(fb, 6).tolist()[:12])
+    except Exception:
+        return '%r vs %r' % (a, b)
+
+
+def run_S(case, ctx):
+    level = case['level']
+    with ctx.guard('sequence|level=%s' % level, case):
+        fresh, ev0, shape = _S_builder(case, ctx.seed)
+        if not np.isfinite(ev0).any(axis=tuple(i for i in range(ev0.ndim) if i != 1)).all():
+            ctx.exclude('all samples NaN')
+            return
+        ops = S_ops(level, shape)
+        # single calls on fresh objects: the value every later occurrence must reproduce
+        alone = {}
+        for op in ops:
+            st = fresh()
+            fp0 = _S_state_fp(level, st)
+            alone[op] = _S_out(level, op, st)
+            sub = dict(case, seq=[op])
+            ctx.case(sub)
+            if alone[op][0].endswith('@oracle'):
+                ctx.fail(_S_sig(level, op, shape, alone[op][0]), sub, alone[op][1])
+            if _S_state_fp(level, st) != fp0:
+                ctx.fail(_S_sig(level, op, shape, 'modifies-' + ('result' if level != 'util' else 'arguments')), sub,
+                         '%s changed the stored evaluations / variances / noise ceiling' % op)
+        if level != 'util' and not alone['get_means'][0].startswith('raises'):
+            want = ref.nan_mean_per_model(ev0)
+            got = np.asarray(alone['get_means'][1], dtype=float)
+            if got.shape != want.shape or not allclose(got, want, TOL):
+                ctx.fail(_S_sig(level, 'get_means', shape, 'not-the-nan-aware-mean'), case,
+                         'get_means() = %r, NaN-aware mean %r' % (got.tolist(), want.tolist()))
+        if 'seq' in case:
+            seqs = [list(case['seq'])]
+        else:
+            firsts = ops[slice(*case['first'])] if 'first' in case else ops
+            seqs = [[a] + list(rest) for a in firsts for rest in itertools.product(ops, repeat=case.get('depth', 2) - 1)]
+        base = {k: v for k, v in case.items() if k not in ('seq', 'first')}
+        for seq in seqs:
+            if len(seq) < 2:
+                continue
+            sub = dict(base, seq=seq)
+            st = fresh()
+            fp0 = _S_state_fp(level, st)
+            ctx.case(sub)
+            modified_by = None
+            for k, op in enumerate(seq):
+                fp_out, out = _S_out(level, op, st)
+                fp1 = _S_state_fp(level, st)
+                if k > 0 and fp_out != alone[op][0]:
+                    detail = '%s after %r differs from the same call on a fresh object with the original ' \
+                             'evaluations: %s' % (op, seq[:k], _S_diff(out, alone[op][1]))
+                    if modified_by is None:
+                        # stored inputs are bit-identical, the output still depends on the history
+                        ctx.fail(_S_sig(level, op, shape, 'depends-on-earlier-call'), sub, detail)
+                    else:
+                        # consequence of the modification already reported: one signature per culprit
+                        ctx.fail(_S_sig(level, modified_by, shape, 'later-outputs-wrong'), sub, detail)
+                if fp1 != fp0:
+                    ctx.fail(_S_sig(level, op, shape, 'modifies-' + ('result' if level != 'util' else 'arguments')), sub,
+                             'call %d (%s) of %r changed the stored evaluations / variances / noise ceiling' % (
+                                 k + 1, op, seq))
+                    fp0 = fp1
+                    modified_by = modified_by or op
+            ctx.outcome(('S', level, seq[-1], alone[seq[-1]][0][:12]))
+
+
 # ----------------------------------------------------------------------------- enumeration
 def _chunks(total, size):
     return [[a, min(total, a + size)] for a in range(0, total, size)]
@@ -879,6 +1114,29 @@ def shards(tier, seed):
             for rng in _chunks(total, 243):
                 out.append({'fam': 'F', 'mode': 'real', 'm': m, 'method': method, 'alpha': 'v3', 'n': 2,
                             'n_cond': 3, 'range': rng})
+    # ---- S: every ordered pair (thorough: triple) of calls on ONE Result / one shared ndarray
+    for m in (1, 2, 3):
+        plan = [((1, m, 3), 'a', 'fixed', [], None), ((1, m, 4), 'a', 'boot', [], 'crossvalidation'),
+                ((3, m), 'b', 'boot', [], None), ((3, m, 2), 'b', 'boot', [], None),
+                ((2, m, 2, 2), 'c', 'fixed', [], None), ((4, m), 'b', 'fixed', [2], None)]
+        if th:
+            plan += [((1, m, 5), 'b', 'fixed', [1], None), ((4, m, 3), 'c', 'boot', [0], None),
+                     ((2, m, 1, 1, 3), 'b', 'boot', [], None)]
+        for shape, vc, ncf, mask, cv in plan:
+            for level in ('result', 'util'):
+                for fill in range(2 if th else 1):
+                    case = {'fam': 'S', 'level': level, 'shape': list(shape), 'vc': vc, 'ncf': ncf, 'mask': mask,
+                            'fill': fill, 'depth': 2}
+                    if cv:
+                        case['cv'] = cv
+                    out.append(case)
+                    if th and m <= 2 and fill == 0:
+                        n_ops = len(S_ops(level, shape))
+                        for a in range(0, n_ops, 2):
+                            out.append(dict(case, depth=3, first=[a, a + 2]))
+        out.append({'fam': 'S', 'level': 'eval_fixed', 'm': m, 'n': 4, 'fill': 0, 'depth': 2})
+        if th:
+            out.append({'fam': 'S', 'level': 'eval_fixed', 'm': m, 'n': 6, 'fill': 1, 'depth': 2, 'method': 'cosine'})
     # ---- M: monotonicity grids
     for m in (1, 2, 3):
         for dof in (1, 2, 7):
@@ -955,6 +1213,8 @@ def run_shard(shard, ctx):
                         run_case({'fam': 'M', 'm': m, 'dof': shard['dof'], 'nc': nc, 'level': level, 'shape': shape,
                                   'target': target, 'corr': bool((level + target) % 2),
                                   'n_rdm': [None, 3][target % 2]}, ctx)
+    elif fam == 'S':
+        run_case(shard, ctx)
     else:
         raise ValueError(fam)
 
@@ -969,5 +1229,7 @@ def run_case(case, ctx):
         run_F(case, ctx)
     elif fam == 'M':
         run_M(case, ctx)
+    elif fam == 'S':
+        run_S(case, ctx)
     else:
         raise ValueError(fam)
